@@ -392,7 +392,7 @@ func (fe *FuncEnc) run(extra []*Clause) {
 			}
 			fe.assume(f)
 			if strings.HasPrefix(r.Label, "config:") {
-				fe.assumedCallees["configuration invariant assumed by "+relName(fn)+": "+r.Src] = true
+				fe.assumedCallees["configuration invariant assumed by "+relName(fn)+": "+r.Src+eng.establishedBy(r.Label)] = true
 			}
 		}
 		ensures = append(ensures, fe.fc.Ensures...)
@@ -681,4 +681,22 @@ func (eng *Engine) ifaceNoModFor(fn *ssa.Function) (bool, []string) {
 		return true, fc.Props
 	}
 	return false, nil
+}
+
+// establishedBy: which contracts carry an ensures clause of the same config: label (option validation establishing what
+// request handling assumes). Reported next to the assumption so an unestablished invariant is visible.
+func (eng *Engine) establishedBy(label string) string {
+	var by []string
+	for _, key := range sortedKeys(eng.specs.funcs) {
+		fc := eng.specs.funcs[key]
+		for _, en := range fc.Ensures {
+			if en.Label == label {
+				by = append(by, fc.Name)
+			}
+		}
+	}
+	if len(by) == 0 {
+		return " [no establishing ensures among the packages loaded for this check]"
+	}
+	return " [established by ensures[" + label + "] of " + strings.Join(by, ", ") + "]"
 }
